@@ -241,15 +241,21 @@ func (w *World) execOp(op hx.Zs) []hx.Zs {
 			// filter, a bare partial filter (merge by identifier) or a delete filter naming neither
 			// selector nor elements (ignored by the update rules, the data is merged).  The model has one
 			// operation for all of them: the data changes and every subscriber is notified.
+			// every form must report success (a local change reported as failed although it was stored, or
+			// the other way round, is an observation the model never makes: seed C11-l)
+			var uerr *model.ErrorType
 			switch {
 			case (fn == 1 || fn == 3) && v%4 == 1:
-				fl.UpdateData(Function(fn), DataValue(fn, v), nil, nil)
+				uerr = fl.UpdateData(Function(fn), DataValue(fn, v), nil, nil)
 			case (fn == 1 || fn == 3) && v%4 == 2:
-				fl.UpdateData(Function(fn), DataValue(fn, v), &model.FilterType{CmdControl: &model.CmdControlType{Partial: &model.ElementTagType{}}}, nil)
+				uerr = fl.UpdateData(Function(fn), DataValue(fn, v), &model.FilterType{CmdControl: &model.CmdControlType{Partial: &model.ElementTagType{}}}, nil)
 			case (fn == 1 || fn == 3) && v%4 == 3:
-				fl.UpdateData(Function(fn), DataValue(fn, v), nil, &model.FilterType{CmdControl: &model.CmdControlType{Delete: &model.ElementTagType{}}})
+				uerr = fl.UpdateData(Function(fn), DataValue(fn, v), nil, &model.FilterType{CmdControl: &model.CmdControlType{Delete: &model.ElementTagType{}}})
 			default:
 				fl.SetData(Function(fn), DataValue(fn, v))
+			}
+			if uerr != nil && fl.DataCopy(Function(fn)) != nil {
+				ret = append(ret, hx.Zs{93})
 			}
 		} else {
 			ret = append(ret, hx.Zs{9})
